@@ -484,4 +484,81 @@ def RNode.kids : RNode → List RNode
   | .tag _ ks => ks
   | .str _ _ _ => []
 
+/-! ## The two outputs as token sequences
+
+The tokenizer (`html.parser`) is not modelled. `plainToks`/`prettyToks` cut the plain / pretty output where a tokenizer cuts
+well-formed output: every tag piece and every string piece with a PREFIX (comment, CDATA, processing instruction, declaration,
+doctype — minus the whitespace after its closing delimiter) is one markup token, everything else is character data. The
+harness compares the cuts with the real tokenizer's on the real outputs (op `tp`/`tq`). -/
+
+/-- the whitespace `rstrip` removes -/
+def rtail (s : PStr) : PStr := (s.reverse.takeWhile isSpace).reverse
+
+inductive Tok where
+  | markup (p : PStr)
+  | data (s : PStr)
+deriving Repr, DecidableEq
+
+def Tok.text : Tok → PStr
+  | .markup p => p
+  | .data s => s
+
+def textOf (ts : List Tok) : PStr := (ts.map Tok.text).flatten
+
+/-- pending character data, if any -/
+def flushD (acc : PStr) : List Tok := if acc = [] then [] else [.data acc]
+
+/-- adjacent character data merged (as `handle_data` calls accumulate until the next tag), whitespace in it disregarded,
+    empty runs dropped -/
+def canonAux : PStr → List Tok → List Tok
+  | acc, [] => flushD acc
+  | acc, .data s :: r => canonAux (acc ++ dropWs s) r
+  | acc, .markup p :: r => flushD acc ++ .markup p :: canonAux [] r
+
+def canon (ts : List Tok) : List Tok := canonAux [] ts
+
+/-- a tag piece as tokens (a hidden tag has none) -/
+def tagTok (p : PStr) : List Tok := if p = [] then [] else [.markup p]
+
+def lineToks (u : PStr) (l : Int) (p : PStr) : List Tok := if p = [] then [] else [.data (rep u l), .markup p, .data [10]]
+def openToks (u : PStr) (l : Int) (p : PStr) : List Tok := if p = [] then [] else [.data (rep u l), .markup p]
+def closeToks (p : PStr) : List Tok := if p = [] then [] else [.markup p, .data [10]]
+
+/-- a string piece in the plain output: character data, or (class with a PREFIX) one markup token followed by the whitespace
+    after its closing delimiter -/
+def strToks (pre suf body : PStr) : List Tok :=
+  if pre = [] then [.data (outputReady pre suf body)]
+  else [.markup (rstrip (outputReady pre suf body)), .data (rtail (outputReady pre suf body))]
+
+mutual
+def plainToks (c : RCfg) : RNode → List Tok
+  | .str p s b => strToks p s b
+  | .tag i ks =>
+    let e := ks.isEmpty && i.canBeEmpty
+    if e then tagTok (formatTag c i e true)
+    else tagTok (formatTag c i e true) ++ plainToksL c ks ++ tagTok (formatTag c i e false)
+def plainToksL (c : RCfg) : List RNode → List Tok
+  | [] => []
+  | k :: ks => plainToks c k ++ plainToksL c ks
+end
+
+mutual
+def prettyToks (c : RCfg) (u : PStr) (l : Int) (lit : Bool) : RNode → List Tok
+  | .str p s b =>
+    if lit then strToks p s b
+    else if strip (outputReady p s b) = [] then []
+    else if p = [] then [.data (rep u l ++ strip (outputReady p s b) ++ [10])]
+    else [.data (rep u l), .markup (strip (outputReady p s b)), .data [10]]
+  | .tag i ks =>
+    let e := ks.isEmpty && i.canBeEmpty
+    if e then (if lit then tagTok (formatTag c i e true) else lineToks u l (formatTag c i e true))
+    else if lit then tagTok (formatTag c i e true) ++ prettyToksL c u (l + 1) true ks ++ tagTok (formatTag c i e false)
+    else if !shouldPrettyPrint i.preserveWs i.name then
+      openToks u l (formatTag c i e true) ++ prettyToksL c u (l + 1) true ks ++ closeToks (formatTag c i e false)
+    else lineToks u l (formatTag c i e true) ++ prettyToksL c u (l + 1) false ks ++ lineToks u l (formatTag c i e false)
+def prettyToksL (c : RCfg) (u : PStr) (l : Int) (lit : Bool) : List RNode → List Tok
+  | [] => []
+  | k :: ks => prettyToks c u l lit k ++ prettyToksL c u l lit ks
+end
+
 end BS.Pretty
